@@ -40,6 +40,12 @@ impl Record {
     }
 
     pub fn add_template_arg(&mut self, name: EcoString, template_arg_id: TemplateArgumentId) {
+        #[cfg(tablegen_lsp_verif)]
+        super::verif_oplog::push(format!(
+            "record.add_template_arg\t{}\t{}",
+            name,
+            template_arg_id.index()
+        ));
         self.name_to_template_arg.insert(name, template_arg_id);
     }
 
@@ -52,6 +58,12 @@ impl Record {
     }
 
     pub fn add_record_field(&mut self, name: EcoString, record_field_id: RecordFieldId) {
+        #[cfg(tablegen_lsp_verif)]
+        super::verif_oplog::push(format!(
+            "record.add_record_field\t{}\t{}",
+            name,
+            record_field_id.index()
+        ));
         self.name_to_record_field.insert(name, record_field_id);
     }
 
@@ -75,6 +87,8 @@ impl Record {
     }
 
     pub fn add_parent(&mut self, parent_id: RecordId) {
+        #[cfg(tablegen_lsp_verif)]
+        super::verif_oplog::push(format!("record.add_parent\t{}", parent_id.index()));
         self.parent_list.push(parent_id);
     }
 
